@@ -153,7 +153,13 @@ def run(ck):
         os.path.join(vlib.ROOT, "ocaml", "bin", "c02_model"))
     thorough = ck.tier == "thorough"
     rng = ck.rng
-    fixed = {k.get("id") for k in ck.known_db if k.get("property") == "C02" and str(k.get("status", "")).startswith("fixed")}
+    # a class is tolerated only while the committed register lists it as an OPEN finding of this property
+    open_ids = {k.get("id") for k in ck.known_db if k.get("property") == "C02" and k.get("status") == "open"}
+
+    class _NotOpen:
+        def __contains__(self, fid):
+            return fid not in open_ids
+    fixed = _NotOpen()
 
     cases = []      # (env, args, tag)
     # ---- corpus: witnesses of findings, always first -------------------------------------------------------
@@ -385,5 +391,5 @@ def run(ck):
         "the runner's dispatch around bind_command_arguments (run_instruction: command lookup, CommandInvocationContext) "
         "is exercised by the correspondence run, not modelled",
         "reparse errors are all mapped to ExpandedValue::None (as in the code); the error kind is not observable",
-        "known-finding classes KF-C02-1/2/3 are tolerated unless known_findings.json marks them fixed",
+        "known-finding classes KF-C02-1/2/3 are tolerated only while known_findings.json lists them as open findings",
     ]
